@@ -489,7 +489,11 @@ func c19ScopeTree(c *Ctx, or *Oracle) {
 	}
 	for i := 0; i < n; i++ {
 		marshal := c.Rng.IntN(2) == 0
+		pooled := c.Rng.IntN(4) == 0 // json.Marshal / json.Unmarshal: a pooled coder reset with the call options
 		own, call := pick(c.Rng.IntN(4)), pick(c.Rng.IntN(4))
+		if pooled {
+			own = nil
+		}
 		if c.Rng.IntN(3) == 0 { // format tags need the experimental switch
 			own = append(own, optCtor{name: "ExperimentalSupportFormatTag", arg: "true", mk: func() json.Options { return json.ExperimentalSupportFormatTag(true) }, val: true})
 		}
@@ -514,6 +518,49 @@ func c19ScopeTree(c *Ctx, or *Oracle) {
 		in := root.text(c19Tag{})
 		desc := fmt.Sprintf("marshal=%v own=[%s] call=[%s] type=%v fail=%v", marshal, descOf(own), descOf(call), rt, c19Cfg.fail)
 
+		if pooled {
+			var probes []c19ProbePath
+			eff := c19Eff{}.with(call)
+			root.act(marshal, eff, c19Tag{}, fmt.Sprintf("Z %s 0 %s", b2s(marshal), c19OptToks(call)), &probes)
+			var err error
+			if p := guard(func() {
+				if marshal {
+					_, err = json.Marshal(val.Interface(), mk(call)...)
+				} else {
+					err = json.Unmarshal([]byte(in), val.Interface(), mk(call)...)
+				}
+			}); p != nil {
+				c.Panic("scoped-pooled", []byte(in), p, map[string]any{"case": desc})
+				continue
+			}
+			_ = err
+			nseen := 0
+			for _, p := range probes {
+				if c19Cfg.seen[p.id] {
+					nseen++
+					batch = append(batch, pend{"opts at 0 0 - - 0 0 0 0 - " + p.path, c19Cfg.snap[p.id], "at-pooled", desc + " pooled probe=" + fmt.Sprint(p.id)})
+				}
+			}
+			c.Hit(fmt.Sprintf("scope-pooled-probes-reached=%d", min(nseen, 4)))
+			// the next pooled call without options starts from nothing: a probe sees only what the entry point sets
+			c19Cfg.fail = [c19NProbe]bool{}
+			c19Cfg.seen = [c19NProbe]bool{}
+			guard(func() {
+				if marshal {
+					_, err = json.Marshal(c19P[c19i0]{})
+				} else {
+					err = json.Unmarshal([]byte("7"), new(c19P[c19i0]))
+				}
+			})
+			if c19Cfg.seen[0] {
+				batch = append(batch, pend{fmt.Sprintf("opts at 0 0 - - 0 0 0 0 - Z %s 0 0  u", b2s(marshal)), c19Cfg.snap[0], "at-pooled-next", desc})
+			}
+			c.Case("scope-pooled:"+desc, true)
+			if len(batch) >= 2000 {
+				flush()
+			}
+			continue
+		}
 		var buf bytes.Buffer
 		var enc *jsontext.Encoder
 		var dec *jsontext.Decoder
